@@ -245,7 +245,12 @@ func (state *RuntimeState) VIPPollCheckHandler(w http.ResponseWriter, r *http.Re
 		state.writeFailureResponse(w, r, http.StatusPreconditionFailed, "Error parsing form")
 		return
 	}
-	//TODO: check username
+	if pushTransaction.Username != authData.Username {
+		logger.Printf("VIPPollCheckHandler: push transaction of %s polled by %s",
+			pushTransaction.Username, authData.Username)
+		state.writeFailureResponse(w, r, http.StatusPreconditionFailed, "Error parsing form")
+		return
+	}
 	valid, err := state.Config.SymantecVIP.Client.VipPushHasBeenApproved(pushTransaction.TransactionID)
 	if err != nil {
 		logger.Println(err)
